@@ -83,8 +83,12 @@ pub fn nms_case() -> impl Strategy<Value = NmsCase> {
         proptest::collection::vec(prop_oneof![3 => Just(None), 1 => (-1.5f32..1.5, -1.5f32..1.5, -1.6f32..1.6, 0u8..2).prop_map(Some)], 40),
         // unit of length: pixels, or coordinates normalised to the image (boxes of 0.005..0.08)
         prop_oneof![5 => Just(1.0f32), 2 => Just(1e-3f32)],
+        // the whole scene far away from the origin (a tile of a huge mosaic): the centres then sit
+        // on the coarse f32 grid there, the boxes keep their size
+        prop_oneof![12 => Just(0.0f32), 1 => Just(16_777_216.0f32), 1 => Just(-30_000_000.0f32)],
     )
-        .prop_map(|(specs, clusters, nms_thr, score_thr, score_mode, reuse, unit)| {
+        .prop_map(|(specs, clusters, nms_thr, score_thr, score_mode, reuse, unit, shift)| {
+            let shift = if unit == 1.0 { shift } else { 0.0 };
             let mut boxes: Vec<(UB, Option<f32>)> = vec![];
             for s in specs {
                 if s.dup && !boxes.is_empty() {
@@ -99,7 +103,7 @@ pub fn nms_case() -> impl Strategy<Value = NmsCase> {
                     (None, None) => None,
                     (a, r) => Some(a.unwrap_or(0.0) + r.unwrap_or(0.0)),
                 };
-                let mut b = UB::new(unit * (cx + s.ox * ch * (1.0 + spread)), unit * (cy + s.oy * ch * (1.0 + spread)), angle, w / h, unit * h);
+                let mut b = UB::new(unit * (cx + s.ox * ch * (1.0 + spread)) + shift, unit * (cy + s.oy * ch * (1.0 + spread)) - shift, angle, w / h, unit * h);
                 match s.invalid {
                     1 => b.height = 0.0,
                     2 => b.height = -h,
